@@ -76,15 +76,6 @@ theorem ctts_expand_ofCounts (counts : List Nat) (offs : List Int) (hl : counts.
   rw [ofCounts_ends counts offs hs, diffs_psums]
   rfl
 
-/-- **stsc**: every chunk before the one holding sample `last` keeps its size; that chunk is cut right after `last` -/
-theorem cropStsc_spec (raw : List (Nat × Nat × Nat)) (h : RawOK raw) (cmax c last : Nat) (hw : NoWrap raw cmax)
-    (h1 : 1 ≤ c) (hc : c ≤ cmax) (hlo : firstSampleOf raw c ≤ last) (hhi : last < firstSampleOf raw (c + 1)) :
-    ∃ raw', cropStsc raw last = some raw' ∧
-      (∀ j, 1 ≤ j → j < c → spcOf raw' j = spcOf raw j) ∧
-      spcOf raw' c = last + 1 - firstSampleOf raw c ∧
-      firstSampleOf raw' (c + 1) = last + 1 := by
-  exact cropStsc_spec' raw h cmax c last hw h1 hc hlo hhi
-
 /-- **stsz**: sizes of the first `last` samples are unchanged, the count is `last` -/
 theorem cropStsz_spec (b : Stsz) (h : b.OK) (last : Nat) (hlast : last ≤ b.sampleNumber) :
     ∃ b', cropStsz b last = some b' ∧ b'.sampleNumber = last ∧ ∀ n, 1 ≤ n → n ≤ last → b'.sizeOf n = b.sizeOf n := by
